@@ -15,6 +15,9 @@ import (
 	"fmt"
 	"testing"
 
+	"github.com/btcsuite/btcd/blockchain"
+	"github.com/btcsuite/btcd/btcec/v2"
+	"github.com/btcsuite/btcd/btcec/v2/ecdsa"
 	"github.com/btcsuite/btcd/btcutil/v2"
 	"github.com/btcsuite/btcd/chainhash/v2"
 	"github.com/btcsuite/btcd/wire/v2"
@@ -77,12 +80,55 @@ func (e *vEst) Start() error                          { return nil }
 func (e *vEst) Stop() error                           { return nil }
 func (e *vEst) RelayFeePerKW() chainfee.SatPerKWeight { return e.relay }
 
+// vSigner produces witnesses of the REAL (maximal) size of every input kind,
+// so that the weight of the serialized tx (blockchain.GetTransactionWeight) is
+// the weight the sweeper's estimator promises and the fee rate a published tx
+// actually pays can be computed from the tx itself.
 type vSigner struct{ input.Signer }
 
-func (vSigner) ComputeInputScript(*wire.MsgTx, *input.SignDescriptor) (
+// witness type of every input the harness created (by outpoint)
+var vWT = map[wire.OutPoint]input.WitnessType{}
+
+func (vSigner) ComputeInputScript(tx *wire.MsgTx, sd *input.SignDescriptor) (
 	*input.Script, error) {
 
-	return &input.Script{}, nil
+	wt, ok := vWT[tx.TxIn[sd.InputIndex].PreviousOutPoint]
+	if !ok {
+		wt = input.WitnessKeyHash // wallet utxo (p2wkh)
+	}
+	switch wt {
+	case input.TaprootPubKeySpend:
+		n := 64
+		if sd.HashType != 0 {
+			n = 65
+		}
+		return &input.Script{Witness: wire.TxWitness{make([]byte, n)}}, nil
+	case input.NestedWitnessKeyHash:
+		return &input.Script{
+			Witness:   wire.TxWitness{make([]byte, 73), make([]byte, 33)},
+			SigScript: make([]byte, 23),
+		}, nil
+	}
+	return &input.Script{
+		Witness: wire.TxWitness{make([]byte, 73), make([]byte, 33)},
+	}, nil
+}
+
+// a 72-byte DER signature (+1 sighash byte = the 73 bytes the size constants
+// assume): both scalars have their top bit set
+func (vSigner) SignOutputRaw(*wire.MsgTx, *input.SignDescriptor) (
+	input.Signature, error) {
+
+	var b [32]byte
+	for i := range b {
+		b[i] = 0x81
+	}
+	b[0] = 0xf0
+	var r, sc btcec.ModNScalar
+	r.SetBytes(&b)
+	b[31] = 0x7f
+	sc.SetBytes(&b)
+	return ecdsa.NewSignature(&r, &sc), nil
 }
 
 // vWallet scripts testmempoolaccept verdicts and records every tx handed to
@@ -136,13 +182,20 @@ func (vNotifier) RegisterSpendNtfn(*wire.OutPoint, []byte, uint32) (
 }
 
 // vReqInput is an input that commits to a required output (second-level
-// HTLC style).
+// HTLC style) and/or to a transaction locktime.
 type vReqInput struct {
 	*input.BaseInput
 	req *wire.TxOut
+	lt  int64 // -1: none
 }
 
 func (v *vReqInput) RequiredTxOut() *wire.TxOut { return v.req }
+func (v *vReqInput) RequiredLockTime() (uint32, bool) {
+	if v.lt < 0 {
+		return 0, false
+	}
+	return uint32(v.lt), true
+}
 
 // vFixedFee is a FeeFunction stub returning a fixed rate (used only to feed
 // createAndCheckTx a chosen rate).
@@ -159,7 +212,27 @@ var vP2WKH = []byte{0x0, 0x14, 1, 2, 3, 4, 5, 6, 7, 8, 9, 10, 11, 12, 13, 14,
 var vP2TR = []byte{0x51, 0x20, 1, 2, 3, 4, 5, 6, 7, 8, 9, 10, 11, 12, 13, 14,
 	15, 16, 17, 18, 19, 20, 21, 22, 23, 24, 25, 26, 27, 28, 29, 30, 31, 32}
 
+// witness script length the size constants assume, per witness type
+func vScriptLen(wt input.WitnessType) int {
+	switch wt {
+	case input.CommitmentAnchor:
+		return input.AnchorScriptSize
+	case input.CommitmentTimeLock:
+		return input.ToLocalScriptSize
+	}
+	return 0
+}
+
 func vMakeInput(value int64, wt input.WitnessType, req int64) input.Input {
+	return vMakeInputEx(value, wt, req, nil, -1)
+}
+
+// vMakeInputEx: value, witness type (weight class), required output value (-1
+// none), unconfirmed parent (CPFP: the parent tx's fee and weight, nil none),
+// required tx locktime (-1 none).
+func vMakeInputEx(value int64, wt input.WitnessType, req int64,
+	parent *input.TxInfo, lt int64) input.Input {
+
 	vInputCount++
 	var h chainhash.Hash
 	h[0] = byte(vInputCount)
@@ -167,24 +240,51 @@ func vMakeInput(value int64, wt input.WitnessType, req int64) input.Input {
 	h[2] = byte(vInputCount >> 16)
 	h[3] = byte(vInputCount >> 24)
 	h[31] = 0xc8
+	op := wire.OutPoint{Hash: h, Index: vInputCount % 3}
+	vWT[op] = wt
 	b := input.MakeBaseInput(
-		&wire.OutPoint{Hash: h, Index: vInputCount % 3}, wt,
+		&op, wt,
 		&input.SignDescriptor{
-			Output:  &wire.TxOut{Value: value, PkScript: vP2WKH},
-			KeyDesc: keychain.KeyDescriptor{PubKey: testPubKey},
-		}, 1, nil,
+			Output:        &wire.TxOut{Value: value, PkScript: vP2WKH},
+			KeyDesc:       keychain.KeyDescriptor{PubKey: testPubKey},
+			WitnessScript: make([]byte, vScriptLen(wt)),
+		}, 1, parent,
 	)
-	if req < 0 {
+	if req < 0 && lt < 0 {
 		return &b
 	}
-	return &vReqInput{BaseInput: &b, req: &wire.TxOut{
-		Value: req, PkScript: vP2TR,
-	}}
+	var ro *wire.TxOut
+	if req >= 0 {
+		ro = &wire.TxOut{Value: req, PkScript: vP2TR}
+	}
+	return &vReqInput{BaseInput: &b, req: ro, lt: lt}
 }
 
 type vIn struct {
 	Value int64  `json:"v"`
 	Req   *int64 `json:"r"`
+	// attributes the model does not need (the publisher's fee arithmetic
+	// must not depend on them) but the generator ranges over
+	WT   string   `json:"wt,omitempty"`
+	Par  *[2]int64 `json:"parent,omitempty"` // unconfirmed parent {fee, weight}
+	Lock *int64   `json:"lock,omitempty"`   // required tx locktime
+}
+
+// vInView describes an input the way the JSON rows do.
+func vInView(in input.Input) vIn {
+	v := vIn{Value: in.SignDesc().Output.Value, WT: in.WitnessType().String()}
+	if ro := in.RequiredTxOut(); ro != nil {
+		rv := ro.Value
+		v.Req = &rv
+	}
+	if p := in.UnconfParent(); p != nil {
+		v.Par = &[2]int64{int64(p.Fee), int64(p.Weight)}
+	}
+	if lt, ok := in.RequiredLockTime(); ok {
+		l := int64(lt)
+		v.Lock = &l
+	}
+	return v
 }
 
 // vTxView projects a tx to the observables: which requested input each
@@ -207,7 +307,21 @@ func vTxView(tx *wire.MsgTx, ins []input.Input) map[string]any {
 	for _, o := range tx.TxOut {
 		outs = append(outs, o.Value)
 	}
-	return map[string]any{"ins": is, "outs": outs}
+	// measured on the transaction itself: weight of the serialized tx, fee
+	// = real input values - outputs, nLockTime
+	var tin, tout int64
+	for _, ti := range tx.TxIn {
+		if j, ok := idx[ti.PreviousOutPoint]; ok {
+			tin += ins[j].SignDesc().Output.Value
+		}
+	}
+	for _, o := range tx.TxOut {
+		tout += o.Value
+	}
+	return map[string]any{"ins": is, "outs": outs,
+		"txw":      blockchain.GetTransactionWeight(btcutil.NewTx(tx)),
+		"txfee":    tin - tout,
+		"locktime": tx.LockTime}
 }
 
 func vPublisher(est *vEst, w *vWallet) *TxPublisher {
@@ -492,20 +606,51 @@ func vRateCase(r *vrng, out *vWriter, ci int) {
 		"end": end, "width": width, "delta": delta, "obs": obs})
 }
 
+// one witness type per weight class the fakes can sign for: wallet-style key
+// spends (p2wkh, p2tr, nested p2wkh), the commitment anchor (CPFP), to_remote
+// (tweakless p2wkh) and the CSV-delayed to_local script spend
 var vWitnessTypes = []input.WitnessType{
 	input.WitnessKeyHash, input.TaprootPubKeySpend,
-	input.NestedWitnessKeyHash,
+	input.NestedWitnessKeyHash, input.CommitmentAnchor,
+	input.CommitSpendNoDelayTweakless, input.CommitmentTimeLock,
 }
 
-// vMakeInputs builds 1..4 inputs; returns inputs + their JSON view.
+// vPickParent: an unconfirmed parent (CPFP) whose own fee rate is far below,
+// around, or far above anything the sweep will offer.
+func vPickParent(r *vrng) *input.TxInfo {
+	w := r.rng(400, 4000)
+	var rate int64
+	switch r.intn(4) {
+	case 0:
+		rate = r.rng(0, 253)
+	case 1:
+		rate = r.rng(253, 3500)
+	case 2:
+		rate = r.rng(3000, 300_000)
+	default:
+		rate = r.rng(200, 1200)
+	}
+	return &input.TxInfo{Fee: btcutil.Amount(rate * w / 1000),
+		Weight: lntypes.WeightUnit(w)}
+}
+
+// vMakeInputs builds 1..4 inputs; returns inputs + their JSON view.  lock >=
+// 0: inputs that require a tx locktime all require this one.
 func vMakeInputs(r *vrng, allowReq bool) ([]input.Input, []vIn) {
+	return vMakeInputsL(r, allowReq, -1)
+}
+
+func vMakeInputsL(r *vrng, allowReq bool, lock int64) ([]input.Input, []vIn) {
 	n := 1 + r.intn(4)
 	var ins []input.Input
 	var view []vIn
 	for i := 0; i < n; i++ {
 		val := r.rng(300, 200_000)
-		if r.intn(5) == 0 {
+		switch r.intn(10) {
+		case 0, 1:
 			val = r.rng(1, 1<<uint(10+r.intn(30)))
+		case 2:
+			val = r.rng(0, 330) // zero / dust valued
 		}
 		req := int64(-1)
 		if allowReq && r.intn(4) == 0 {
@@ -515,13 +660,17 @@ func vMakeInputs(r *vrng, allowReq bool) ([]input.Input, []vIn) {
 			}
 		}
 		wt := vWitnessTypes[r.intn(len(vWitnessTypes))]
-		ins = append(ins, vMakeInput(val, wt, req))
-		v := vIn{Value: val}
-		if req >= 0 {
-			rq := req
-			v.Req = &rq
+		var parent *input.TxInfo
+		if r.intn(4) == 0 || (wt == input.CommitmentAnchor && r.intn(3) != 0) {
+			parent = vPickParent(r)
 		}
-		view = append(view, v)
+		lt := int64(-1)
+		if lock >= 0 && r.intn(4) == 0 {
+			lt = lock
+		}
+		in := vMakeInputEx(val, wt, req, parent, lt)
+		ins = append(ins, in)
+		view = append(view, vInView(in))
 	}
 	return ins, view
 }
@@ -573,6 +722,7 @@ func vTxCase(r *vrng, out *vWriter, ci int) {
 		// make the adjusted input a p2wkh spend first so that the
 		// weight (hence the fee) is fixed before balancing
 		ins[adj] = vMakeInput(view[adj].Value, vWitnessTypes[0], -1)
+		view[adj] = vInView(ins[adj])
 		weight, _ = calcSweepTxWeight(ins, [][]byte{addr.DeliveryAddress})
 		fee = rate * int64(weight) / 1000
 		var want int64
@@ -589,8 +739,8 @@ func vTxCase(r *vrng, out *vWriter, ci int) {
 		others := tin - view[adj].Value
 		nv := treq + fee + want - others
 		if nv >= 1 {
-			view[adj].Value = nv
 			ins[adj] = vMakeInput(nv, vWitnessTypes[0], -1)
+			view[adj] = vInView(ins[adj])
 		}
 		tin, treq = vSums(view)
 	}
@@ -640,7 +790,12 @@ func vTxCase(r *vrng, out *vWriter, ci int) {
 // vPubCase drives the real TxPublisher end to end: Broadcast(Immediate) ->
 // handleInitialBroadcast, then blocks via processRecords -> handleFeeBumpTx.
 func vPubCase(r *vrng, out *vWriter, ci int, finding bool) {
-	ins, view := vMakeInputs(r, r.intn(3) == 0)
+	// some inputs commit to a tx locktime that has already been reached
+	lock := int64(-1)
+	if r.intn(3) == 0 {
+		lock = r.rng(1, 99)
+	}
+	ins, view := vMakeInputsL(r, r.intn(3) == 0, lock)
 	addr := lnwallet.AddrWithKey{DeliveryAddress: vP2TR}
 	if r.bool() {
 		addr = lnwallet.AddrWithKey{DeliveryAddress: vP2WKH}
@@ -716,7 +871,7 @@ func vPubCase(r *vrng, out *vWriter, ci int, finding bool) {
 					view[len(view)-1].Value,
 					vWitnessTypes[0], -1,
 				)
-				view[len(view)-1].Req = nil
+				view[len(view)-1] = vInView(ins[len(ins)-1])
 				weight, _ = calcSweepTxWeight(ins,
 					[][]byte{addr.DeliveryAddress})
 				tin, treq = vSums(view)
@@ -932,6 +1087,79 @@ func vSetCase(r *vrng, out *vWriter, ci int) {
 		"need1": set.NeedWalletInput(), "budget": int64(set.Budget())})
 }
 
+// vWestCase drives the sweeper's weightEstimator directly: inputs of every
+// weight class, some with unconfirmed parents (shared parent txs, parent fee
+// rate below / equal / above the sweep's rate), fee() vs feeWithParent() with
+// and without a max fee rate.
+func vWestCase(r *vrng, out *vWriter, ci int) {
+	rate := r.rng(1, 60_000)
+	if r.intn(3) == 0 {
+		rate = r.rng(253, 3000)
+	}
+	maxr := int64(0)
+	switch r.intn(4) {
+	case 0:
+		maxr = rate + r.rng(-2, 2)
+	case 1:
+		maxr = r.rng(1, 2*rate)
+	case 2:
+		maxr = r.rng(rate, 100*rate)
+	}
+	if maxr < 0 {
+		maxr = 0
+	}
+	we := newWeightEstimator(chainfee.SatPerKWeight(rate), chainfee.SatPerKWeight(maxr))
+	n := 1 + r.intn(4)
+	var ps []any
+	var hashes []chainhash.Hash
+	var keys []int64
+	for i := 0; i < n; i++ {
+		vInputCount++
+		var h chainhash.Hash
+		h[0], h[1], h[2], h[3], h[31] = byte(vInputCount), byte(vInputCount>>8),
+			byte(vInputCount>>16), byte(vInputCount>>24), 0xd7
+		key := int64(len(hashes))
+		if len(hashes) > 0 && r.intn(3) == 0 {
+			// a second output of an earlier input's parent tx
+			j := r.intn(len(hashes))
+			key, h = keys[j], hashes[j]
+		}
+		hashes = append(hashes, h)
+		keys = append(keys, key)
+		var parent *input.TxInfo
+		if r.intn(3) != 0 {
+			pw := r.rng(200, 5000)
+			pr := rate + r.rng(-2, 2) // at the comparison boundary
+			switch r.intn(3) {
+			case 0:
+				pr = r.rng(0, rate)
+			case 1:
+				pr = r.rng(rate, 4*rate+10)
+			}
+			if pr < 0 {
+				pr = 0
+			}
+			pf := pr*pw/1000 + r.rng(0, 1)
+			parent = &input.TxInfo{Fee: btcutil.Amount(pf), Weight: lntypes.WeightUnit(pw)}
+			ps = append(ps, []int64{key, pf, pw})
+		} else {
+			ps = append(ps, nil)
+		}
+		wt := vWitnessTypes[r.intn(len(vWitnessTypes))]
+		in := input.MakeBaseInput(&wire.OutPoint{Hash: h, Index: uint32(i)}, wt,
+			&input.SignDescriptor{Output: &wire.TxOut{Value: 1000, PkScript: vP2WKH}},
+			1, parent)
+		if err := we.add(&in); err != nil {
+			panic(err)
+		}
+	}
+	we.addP2TROutput()
+	out.emit(map[string]any{"kind": "west", "case": ci, "rate": rate, "maxr": maxr,
+		"weight": int64(we.weight()), "parents": ps, "fee": int64(we.fee()),
+		"feewp": int64(we.feeWithParent()), "pfee": int64(we.parentsFee),
+		"pweight": int64(we.parentsWeight)})
+}
+
 func TestVerifFee(t *testing.T) {
 	out := vOpenOut()
 	defer out.close()
@@ -962,6 +1190,11 @@ func TestVerifFee(t *testing.T) {
 	nset := vCases(100, 3000)
 	for i := 0; i < nset; i++ {
 		vSetCase(master.fork(uint64(ci)), out, ci)
+		ci++
+	}
+	nwest := vCases(80, 2000)
+	for i := 0; i < nwest; i++ {
+		vWestCase(master.fork(uint64(ci)), out, ci)
 		ci++
 	}
 	// composed sweeper -> aggregator -> input set -> publisher -> fee
